@@ -16,7 +16,7 @@
 (***************************************************************************)
 EXTENDS Naturals, Sequences
 
-B == 256
+BRadix == 256
 
 RECURSIVE BNormR(_)
 BNormR(a) == IF a = <<>> THEN <<>>
@@ -28,11 +28,11 @@ IsBigNat(a) == /\ \A i \in 1..Len(a) : a[i] \in 0..255
                /\ (a # <<>> => a[Len(a)] # 0)
 
 RECURSIVE BFromNatR(_)
-BFromNatR(n) == IF n = 0 THEN <<>> ELSE <<n % B>> \o BFromNatR(n \div B)
+BFromNatR(n) == IF n = 0 THEN <<>> ELSE <<n % BRadix>> \o BFromNatR(n \div BRadix)
 BFromNat(n) == BFromNatR(n)
 
 RECURSIVE BToNatR(_, _)
-BToNatR(a, i) == IF i > Len(a) THEN 0 ELSE a[i] + B * BToNatR(a, i + 1)
+BToNatR(a, i) == IF i > Len(a) THEN 0 ELSE a[i] + BRadix * BToNatR(a, i + 1)
 (* only meaningful below 2^31 *)
 BToNat(a) == BToNatR(a, 1)
 
@@ -58,14 +58,14 @@ RECURSIVE BAddR(_, _, _, _, _)
 BAddR(a, b, i, n, c) ==
     IF i > n THEN (IF c = 0 THEN <<>> ELSE <<c>>)
     ELSE LET s == Dig(a, i) + Dig(b, i) + c
-         IN  <<s % B>> \o BAddR(a, b, i + 1, n, s \div B)
+         IN  <<s % BRadix>> \o BAddR(a, b, i + 1, n, s \div BRadix)
 BAdd(a, b) == BNorm(BAddR(a, b, 1, Max(Len(a), Len(b)), 0))
 
 RECURSIVE BSubR(_, _, _, _, _)
 BSubR(a, b, i, n, c) ==
     IF i > n THEN <<>>
-    ELSE LET s == Dig(a, i) + B - Dig(b, i) - c
-         IN  <<s % B>> \o BSubR(a, b, i + 1, n, 1 - (s \div B))
+    ELSE LET s == Dig(a, i) + BRadix - Dig(b, i) - c
+         IN  <<s % BRadix>> \o BSubR(a, b, i + 1, n, 1 - (s \div BRadix))
 (* natural subtraction, requires a >= b; (a - b) mod 256^Len otherwise *)
 BSub(a, b) == BNorm(BSubR(a, b, 1, Max(Len(a), Len(b)), 0))
 
@@ -74,7 +74,7 @@ RECURSIVE BMul1R(_, _, _, _)
 BMul1R(a, d, i, c) ==
     IF i > Len(a) THEN (IF c = 0 THEN <<>> ELSE <<c>>)
     ELSE LET s == a[i] * d + c
-         IN  <<s % B>> \o BMul1R(a, d, i + 1, s \div B)
+         IN  <<s % BRadix>> \o BMul1R(a, d, i + 1, s \div BRadix)
 Zeros(k) == [i \in 1..k |-> 0]
 
 RECURSIVE BMulR(_, _, _)
@@ -99,7 +99,7 @@ BShl(a, n) == BNorm(Zeros(n \div 8) \o BMul1R(a, Pow2(n % 8), 1, 0))
 RECURSIVE BShrBitsR(_, _, _)
 BShrBitsR(a, k, i) ==    \* k in 0..7
     IF i > Len(a) THEN <<>>
-    ELSE <<((a[i] \div Pow2(k)) + (Dig(a, i + 1) % Pow2(k)) * Pow2(8 - k)) % B>>
+    ELSE <<((a[i] \div Pow2(k)) + (Dig(a, i + 1) % Pow2(k)) * Pow2(8 - k)) % BRadix>>
          \o BShrBitsR(a, k, i + 1)
 BShr(a, n) == IF n \div 8 >= Len(a) THEN <<>>
               ELSE BNorm(BShrBitsR(SubSeq(a, (n \div 8) + 1, Len(a)), n % 8, 1))
